@@ -45,13 +45,22 @@ ASSUMPTIONS = [
     "generated grammar",
 ]
 STATEMENT_STATUS = {
-    "C01_int_token": "proved: every spelling [+-]?d+ (<= 4300 digits) followed by a delimiter lexes to its value",
-    "C01_name_token": "proved: / + raw regular bytes and #xx escapes followed by a delimiter lexes to the name",
-    "C01_hex_token_partial": "proved for even digit counts and white space anywhere; odd length has a proved "
-                             "counter-example C01_odd_hex_cex (open finding, pinned by the unit tests)",
-    "C01_string_token": "proved: every escape / octal / continuation / balanced-parenthesis spelling lexes to the bytes",
-    "C01_nesting": "proved on token sequences: the stack parser rebuilds any object tree of any depth",
-    "C01_roundtrip": "not proved end to end (token concatenation lemma missing); covered by the correspondence",
+    "C01_int_token": "proved (+ _eof, _buffered): every spelling [+-]?d+ (<= 4300 digits) followed by any non-digit "
+                     "lexes to its value at its position, at every buffer size",
+    "C01_name_token": "proved (+ _eof, _buffered): / + raw regular bytes and #xx escapes (either case), followed by "
+                      "white space or a delimiter, lexes to the name's bytes",
+    "C01_hex_statement": "full statement; FALSE on the pinned code (C01_hex_statement_fails, C01_odd_hex_cex): odd "
+                         "digit count, open finding odd-hex-digit",
+    "C01_hex_token_partial": "proved for an even digit count, either case, white space incl. NUL anywhere "
+                             "(+ _eof_partial, C01_hex_then)",
+    "C01_string_token": "proved (+ _eof, _buffered): Table 3 escapes, 1-3 digit octal with overflow ignored, "
+                        "backslash LF/CR/CRLF continuations, ignored backslash, raw balanced parentheses of any depth",
+    "C01_nesting": "proved on token sequences for trees of any depth: the stack parser (PSStackParser.nextobject + "
+                   "PDFStreamParser) rebuilds the tree, null-valued dictionary entries absent",
+    "C01_roundtrip": "NOT proved end to end: missing are (1) real-number and keyword tokens, (2) the lemma that the "
+                     "tokens of a concatenation of spellings with separators are the concatenation of the tokens, "
+                     "(3) soundness of Spec/Syntax.spellcheck w.r.t. the item grammars; all three are covered by the "
+                     "correspondence (spec.spell == expected == implementation == model.obj) only",
 }
 
 
@@ -161,6 +170,20 @@ def gen_bytes(rng, maxlen=8, lo=0) -> bytes:
     return bytes(out)
 
 
+def gen_paren_bytes(rng, depth: int) -> bytes:
+    """bytes with balanced (and sometimes a stray) parentheses, digits after them, backslashes"""
+    out = bytearray()
+    for _ in range(rng.randint(1, 4)):
+        r = rng.random()
+        if r < 0.4 and depth > 0:
+            out += b"(" + gen_paren_bytes(rng, depth - 1) + b")"
+        elif r < 0.5:
+            out += rng.choice([b"(", b")", b"\\", b"\r", b"\n"])
+        else:
+            out.append(rng.choice(b"ab017 \n"))
+    return bytes(out)
+
+
 def gen_key(rng) -> bytes:
     # valid UTF-8 keys: ASCII incl. delimiters/white space (written with #xx), or a two-byte sequence
     n = rng.randint(0, 4)
@@ -187,6 +210,8 @@ def gen_scalar(rng, kind=None):
         num = rng.randint(-10 ** rng.randint(0, 8), 10 ** rng.randint(0, 8))
         return ("real", Fraction(num, 10 ** digs), digs)
     if kind in ("str", "hexstr"):
+        if kind == "str" and rng.random() < 0.3:
+            return ("str", gen_paren_bytes(rng, 3), False)
         return ("str", gen_bytes(rng), kind == "hexstr")
     if kind == "name":
         return ("name", gen_bytes(rng, lo=1))
@@ -687,13 +712,36 @@ def _run(ctx: C.Ctx) -> None:
     for value, feats in enumerate_features(rng):
         for _ in range(2):
             check_case(ctx, batch, make_case(rng, value, feats), "enum", seen)
-    for i in range(ctx.n(2500, 150000)):
+    for i in range(ctx.n(12000, 400000)):
         if not ctx.time_left():
             break
         value = gen_tree(rng, rng.randint(0, 5), [40])
         k = rng.random()
         feats = ALL_FEATURES if k < 0.6 else rng.sample(ALL_FEATURES, rng.randint(0, 4))
         check_case(ctx, batch, make_case(rng, value, feats), "random", seen)
+        if i % 4 == 0:
+            check_mutant(ctx, batch, make_case(rng, value, feats, "stream"), rng)
         if len(batch.req) > 100000:
             batch.flush()
     batch.flush()
+
+
+def check_mutant(ctx: C.Ctx, batch: Batch, case: Case, rng) -> None:
+    """Malformed stream, for the tie only: a damaged spelling must read the same in the model and in the code."""
+    data = bytearray(case.data())
+    for _ in range(rng.randint(1, 3)):
+        k = rng.random()
+        pos = rng.randrange(len(data) + 1)
+        if k < 0.35 and data:
+            del data[min(pos, len(data) - 1)]
+        elif k < 0.7:
+            data.insert(pos, rng.choice(b"()<>[]{}/%#\\ \r\n\x0001a."))
+        elif data:
+            data[min(pos, len(data) - 1)] = rng.randrange(256)
+    data = bytes(data)
+    got = read_stream(data, case.bufsiz)
+    ctx.case((data, "mutant", case.bufsiz), True, branch="reader:mutant")
+    if got.endswith("!RecursionError") or got.endswith("!MemoryError"):
+        return
+    batch.add("model.obj %d %s" % (case.bufsiz, C.hx(data)), "model.obj",
+              {"data": data.hex(), "bufsiz": case.bufsiz, "mutant": True}, got)
